@@ -220,8 +220,11 @@ def run(ctx):
                 md["info"] = L(bytes(65 + i % 26 for i in range(n)))
                 ev.append(transport(md, kb, "every_info_length"))
     # session keys
-    for _ in range(30 if q else 300):
-        seed = rng.randbytes(16)
+    # (seeds with NUL / whitespace bytes at either end and the constant ones are always included: value-specific handling of the
+    # 16 random bytes - stripping, padding - shows there and nowhere else)
+    special = [bytes(16), b"\xff" * 16, rng.randbytes(15) + b"\x00", b"\x00" + rng.randbytes(15), rng.randbytes(14) + b"\x00\x00", rng.randbytes(15) + b" ",
+               b"\n" + rng.randbytes(15), rng.randbytes(8) + b"\x00" + rng.randbytes(7), b"A" * 16]
+    for seed in special + [rng.randbytes(16) for _ in range(30 if q else 300)]:
         dg = hashlib.sha256(seed).digest()
         a = core.outcome(c2.derive_aes_hmac_keys, seed)
         kk = core.outcome(c2.BeaconKeys.from_aes_rand, seed)
